@@ -17,6 +17,11 @@ import symtable
 import sys
 import tempfile
 
+# the repository uses PEP 695 syntax: parse it with the repository's own interpreter
+if sys.version_info < (3, 12) and os.path.exists("/venv/bin/python"):
+    os.environ["PYTHONPATH"] = "/verif" + (os.pathsep + os.environ["PYTHONPATH"] if os.environ.get("PYTHONPATH") else "")
+    os.execv("/venv/bin/python", ["/venv/bin/python"] + sys.argv)
+
 VERIF = "/verif"
 SRC = "/repo"
 
